@@ -274,3 +274,27 @@ var reCallOrd = regexp.MustCompile(`@([A-Za-z_][A-Za-z0-9_.$]*)#\d+`)
 func obligationStem(n string) string {
 	return reCallOrd.ReplaceAllString(reFromEdge.ReplaceAllString(n, ""), "@$1")
 }
+
+// goHasNoEffect: the call started by a go statement has a contract that is pure or assigns nothing
+// (interface methods by their iface contract or the pure-interface list)
+func (fr *Frame) goHasNoEffect(g *ssa.Go) bool {
+	ex := fr.ex
+	c := g.Common()
+	var ct *Contract
+	if c.IsInvoke() {
+		key := ifaceKey(c.Value.Type(), c.Method.Name())
+		if pureIface(key) {
+			return true
+		}
+		ct = ex.W.contracts[key]
+	} else if callee := c.StaticCallee(); callee != nil {
+		ct = ex.W.contracts[fnKey(callee)]
+	}
+	if ct == nil {
+		return false
+	}
+	if ct.Pure {
+		return true
+	}
+	return ct.HasAssigns && len(ct.Assigns) == 0
+}
